@@ -194,6 +194,11 @@ def run_css(ctx, built=None):
         ctx.obligations('props/C18Css.v')
     model = ctx.model('style') if ok else None
     cases, nalpha, n_ex = gen_css(ctx, ctx.tier)
+    # white space / line-break conventions in every position (c18_ws.py): same oracle, same correspondence
+    import c18_ws
+    n_base = len(cases)
+    cases = cases + c18_ws.gen_css_ws(ctx, ctx.tier, CSS_ALPHABET, FRAGS)
+    ctx.cov.setdefault('white_space_class', {})['css_inputs'] = len(cases) - n_base
     rule = ('css: corpus + exhaustive strings up to length %d over a %d-character alphabet, in property and in value mode, '
             '+ random strings/fragment mixes; non-trivial = tokenizes into >=2 tokens or raises the scanner error; distinct by '
             '(input, mode)') % (n_ex, nalpha)
@@ -217,6 +222,9 @@ def run_css(ctx, built=None):
                 ctx.nontrivial(('c', s, v))
             for k, _, _ in r[1]:
                 ctx.cover('css:token:' + k[0])
+        if j >= n_base:
+            for b in c18_ws.classify(s):
+                ctx.cover('css:ws:%s:%s' % (b, r[0]))
     reporter.finish()
     for (s, v), r in list(zip(cases, impl))[60:64]:
         ctx.sample({'component': 'css', 'input': s, 'is_value': v, 'impl': repr(r)[:200]})
